@@ -11,7 +11,14 @@ Monitors (all decide on bytes produced by the real library):
                  packets inside blobs, arrays, timetags).  Values without an
                  OSC representation must be refused.
   library reader OscMessage / OscBundle / OscPacket applied to the same bytes
-                 must give the same address, parameters and timetags.
+                 must give the same address, parameters and timetags;
+                 OscPacket.messages must be the document-order flattening of
+                 the independent decode, stably sorted by timetag (bundles
+                 with exactly tied / all-immediate times at depth 2-4 are
+                 generated on purpose).
+  dispatch       RT: the datagram is handed to the interface's own
+                 _handle_request; recv functions must get the messages in
+                 that same sequence, with time == (timetag - offset) / 2**32.
   size           NetAddr._calc_msg_dgram_size/_calc_bndl_dgram_size >= len(dgram).
   clump          datagrams handed to `_send` by send_clumped_bundles, by the
                  flush of a BundleNetAddr block and by sync(elements=...)
@@ -70,6 +77,8 @@ MIN_COUNTERS = {
     'clump_family/big-among-small': 15,
     'clump_cases_bundlenetaddr': 10,
     'drecv_routes_checked': 20,
+    'packet_sequences_with_timetag_ties': 300,
+    'dispatch_sequences_compared': 200,
 }
 
 
@@ -238,6 +247,14 @@ def check_packet(cx, i, lst, is_bundle, rng, hostile):
         if bad:
             acc.violation(f'C06/library-reader-differs/{bad}',
                           {'case': i, 'input': before, 'dgram': dgram[:300]})
+        if cx.mode == 'rt' and is_bundle and 'nested-bundle-element' in feats:
+            try:
+                bad = dispatch_check(cx, dgram, dec, exp)
+            except Exception as e:
+                bad = f'raises-{_exc_key(e)}'
+            if bad:
+                acc.violation(f'C06/dispatch-differs/{bad}',
+                              {'case': i, 'input': before, 'dgram': dgram[:300]})
     # ---- size prediction --------------------------------------------------
     try:
         if is_bundle:
@@ -366,8 +383,40 @@ def lib_reader_check(cx, dgram, dec, exp):
         r = bundle(oli.OscBundle(dgram), dec, exp)
     if r:
         return r
-    # OscPacket: flat list of timed messages
+    # OscPacket: flat list of timed messages.  What the library promises (the
+    # recursive flattening + stable sort of the unchanged reader, relied on by
+    # dispatch and asserted for flat bundles by test_bndl_atomicity): ordered
+    # by timetag, document order among equal timetags.
     pk = oli.OscPacket(dgram).messages
+    want = expected_message_sequence(M, osc, dec, exp)
+    if exp[0] == 'bundle' and any(e[0] == 'bundle' for e in exp[2]) and \
+            len({w[0] for w in want}) < len(want):
+        cx.acc.count('packet_sequences_with_timetag_ties')
+    if len(pk) != len(want):
+        return 'packet-message-count'
+
+    def same(tm, w):
+        return w[0] == tm.time and w[1] == tm.message.address and \
+            M.same_params(list(tm.message.params), w[2])
+    if all(same(tm, w) for tm, w in zip(pk, want)):
+        return None
+    rest = list(want)
+    for tm in pk:
+        for k, w in enumerate(rest):
+            if same(tm, w):
+                del rest[k]
+                break
+        else:
+            return 'packet-messages'
+    if any((a.time or 0) > (b.time or 0) for a, b in zip(pk, pk[1:])):
+        return 'packet-not-sorted-by-time'
+    return 'packet-message-order-among-equal-timetags'
+
+
+def expected_message_sequence(M, osc, dec, exp):
+    """[(timetag | None, address, params)] : document order flattening of the
+    independently decoded packet (each message with the timetag of its
+    innermost bundle), stably sorted by timetag."""
     flat = []
 
     def fl(d, tt):
@@ -377,25 +426,61 @@ def lib_reader_check(cx, dgram, dec, exp):
             for x in d.elements:
                 fl(x, d.timetag)
     fl(dec, None)
-    eflat = M.flatten(exp)
-    if len(pk) != len(flat):
-        return 'packet-message-count'
-    got = sorted(((tm.time or 0), k) for k, tm in enumerate(pk))
-    if [g[1] for g in got] != list(range(len(pk))):
-        return 'packet-not-sorted-by-time'
-    # multiset comparison on (time, address, params)
     want = []
-    for (tt, d), (_, addr, nodes) in zip(flat, eflat):
+    for (tt, d), (_, addr, nodes) in zip(flat, M.flatten(exp)):
         want.append((tt, addr, M.lib_params(nodes, M.iter_blobs(d.args))))
-    rest = list(want)
-    for tm in pk:
-        for k, w in enumerate(rest):
-            if w[0] == tm.time and w[1] == tm.message.address and \
-                    M.same_params(list(tm.message.params), w[2]):
-                del rest[k]
-                break
-        else:
-            return 'packet-messages'
+    order = sorted(range(len(want)), key=lambda k: want[k][0] or 0)
+    return [want[k] for k in order]
+
+
+def dispatch_check(cx, dgram, dec, exp):
+    """RT only: the datagram is given to the interface's own _handle_request
+    (as the UDP thread does) from the main thread while nothing else runs;
+    the messages must reach the registered recv functions in the expected
+    sequence, timed bundles with time == (timetag - offset) / 2**32."""
+    import threading
+    from sc3.base.clock import SystemClock
+    M, osc = cx.M, cx.osc
+    want = expected_message_sequence(M, osc, dec, exp)
+    got = []
+
+    def recv(msg, time, addr, port):
+        got.append((list(msg), time))
+    done = threading.Event()
+    t0 = cx.main.elapsed_time()
+    cx.main.add_osc_recv_func(recv)
+    try:
+        cx.iface._handle_request(dgram, ('127.0.0.1', 57110))
+        SystemClock.sched(0, lambda: done.set())
+        if not done.wait(10):
+            cx.acc.count('dispatch_timeouts')
+            return None
+    finally:
+        cx.main.remove_osc_recv_func(recv)
+    t1 = cx.main.elapsed_time()
+    cx.acc.count('dispatch_sequences_compared')
+    cx.acc.count('dispatch_messages_compared', len(want))
+    if len(got) != len(want):
+        return 'message-count'
+
+    def same(g, w):
+        return g[0][0] == w[1] and M.same_params(g[0][1:], w[2])
+    if not all(same(g, w) for g, w in zip(got, want)):
+        rest = list(want)
+        for g in got:
+            for k, w in enumerate(rest):
+                if same(g, w):
+                    del rest[k]
+                    break
+            else:
+                return 'messages'
+        return 'message-order'
+    for g, w in zip(got, want):
+        if w[0] is None or w[0] == 1:
+            if not t0 - 1e-6 <= g[1] <= t1 + 1e-6:
+                return 'immediate-message-time-not-reception-time'
+        elif abs(g[1] - (w[0] - cx.offset) / 2 ** 32) > 2.0 ** -31:
+            return 'bundle-time'
     return None
 
 
@@ -934,7 +1019,7 @@ def run_shard(spec, acc):
             lst = gen_or_retry(lambda: M.gen_msg(rng, 0, hostile))
             nt = check_packet(cx, i, lst, False, rng, hostile)
         else:
-            order = 'ok' if rng.random() < 0.75 else 'any'
+            order = rng.choice(['ok', 'ok', 'ok', 'tie', 'tie', 'any'])
             lst = gen_or_retry(lambda: M.gen_bundle(rng, 0, order=order,
                                                     hostile=hostile))
             nt = check_packet(cx, i, lst, True, rng, hostile)
